@@ -15,6 +15,7 @@ package main
 
 import (
 	"bytes"
+	"crypto/hmac"
 	"fmt"
 	"net"
 	"strings"
@@ -277,10 +278,42 @@ func c20ParseHello(msg []byte) (ticket []byte, hasTicket bool, ids []c20PskID, h
 	return
 }
 
+// c20PskBody returns the body of the pre_shared_key extension of a ClientHello message (nil if absent).
+func c20PskBody(msg []byte) []byte {
+	if len(msg) < 4+2+32+1 {
+		return nil
+	}
+	b := msg[4+2+32:]
+	skip := func(n int) bool {
+		if len(b) < n {
+			return false
+		}
+		b = b[n:]
+		return true
+	}
+	if !skip(1 + int(b[0])) || len(b) < 2 || !skip(2+(int(b[0])<<8|int(b[1]))) || len(b) < 1 || !skip(1+int(b[0])) || len(b) < 2 {
+		return nil
+	}
+	exts := b[2:]
+	for len(exts) >= 4 {
+		id := int(exts[0])<<8 | int(exts[1])
+		n := int(exts[2])<<8 | int(exts[3])
+		if len(exts) < 4+n {
+			return nil
+		}
+		if id == 41 {
+			return exts[4 : 4+n]
+		}
+		exts = exts[4+n:]
+	}
+	return nil
+}
+
 // ---- one case ----
 
 type c20Run struct {
 	kind         string
+	cache0       *c20Cache // copy of the initial cache content
 	u            *tls.UConn
 	cache        *c20Cache
 	userCS       *tls.ClientSessionState // real TLS 1.2 session injected by T*/S* ops
@@ -403,7 +436,7 @@ func c20Exec(in KV) string {
 			needHS = true
 		}
 	}
-	c := &c20Run{kind: kind, cache: newC20Cache()}
+	c := &c20Run{kind: kind, cache: newC20Cache(), cache0: newC20Cache()}
 	// material
 	if cs := c20Session(kind, 12, "user"); cs != nil {
 		c.userCS = cs
@@ -425,6 +458,7 @@ func c20Exec(in KV) string {
 		}
 		if cs := c20Session(kind, v, "cache"); cs != nil {
 			c.cache.Put(c20ServerName, cs)
+			c.cache0.Put(c20ServerName, cs)
 			c.cacheTicket, c.cacheSess, _ = cs.ResumptionState()
 		} else {
 			return "out=nosession"
@@ -503,6 +537,7 @@ func c20Exec(in KV) string {
 	}
 
 	var outs, dumps []string
+	nEdits := 0
 	hsOut := ""
 	for _, op := range ops {
 		var f func() error
@@ -539,6 +574,26 @@ func c20Exec(in KV) string {
 			f = func() error { return c.u.SetPskExtension(&tls.UtlsPreSharedKeyExtension{}) }
 		case "Pn":
 			f = func() error { return c.u.SetPskExtension(nil) }
+		case "Er":
+			// documented edit of another ClientHello field: the client random
+			nEdits++
+			rnd := bytes.Repeat([]byte{byte(0xe0 + nEdits)}, 32)
+			f = func() error { return c.u.SetClientRandom(rnd) }
+		case "En":
+			// SetSNI with the configured name (no byte of the hello changes)
+			f = func() error { c.u.SetSNI(c20ServerName); return nil }
+		case "Ea":
+			// edit of the ALPN extension of the applied spec (changes the length of the hello)
+			nEdits++
+			n := nEdits
+			f = func() error {
+				for _, e := range c.u.Extensions {
+					if a, ok := e.(*tls.ALPNExtension); ok {
+						a.AlpnProtocols = append(append([]string{}, a.AlpnProtocols...), fmt.Sprintf("verif/%d", n))
+					}
+				}
+				return nil
+			}
 		default:
 			return "out=bad-op"
 		}
@@ -597,7 +652,29 @@ func c20Exec(in KV) string {
 			} else {
 				wt = "nowire"
 			}
-			hsOut = fmt.Sprintf(" hs=%s/%s/%04x/%s/%s wt=%s wp=%s wage=%s uage=%d", out, srvOut, cs.Version, c20b(cs.DidResume), c20b(sr.st.DidResume), wt, wp, wage, c.pskAge)
+			// the binder on the wire, recomputed independently (standard library HMAC/HKDF) over
+			// exactly the bytes sent
+			bv := "-"
+			if chs := clientHellos(wire); len(chs) > 0 && (wp == "P" || wp == "K") {
+				var sec []byte
+				src := c.pskCS
+				if wp == "K" {
+					src, _ = c.cache0.Get(c20ServerName)
+				}
+				if f := tls.VerifClientSessionFields(src); f != nil {
+					sec = f.Secret
+				}
+				bv = "0"
+				if body := c20PskBody(chs[0]); body != nil && sec != nil {
+					if q := parsePSKBody(body); q.ok && len(q.binders) > 0 && len(chs[0]) >= q.bindLen {
+						want := binderFor(len(q.binders[0]), sec, nil, chs[0][:len(chs[0])-q.bindLen])
+						if hmac.Equal(want, q.binders[0]) {
+							bv = "1"
+						}
+					}
+				}
+			}
+			hsOut = fmt.Sprintf(" hs=%s/%s/%04x/%s/%s wt=%s wp=%s bv=%s wage=%s uage=%d", out, srvOut, cs.Version, c20b(cs.DidResume), c20b(sr.st.DidResume), wt, wp, bv, wage, c.pskAge)
 			// literal bytes of the injected identity and of what the wire carried
 			inj := ""
 			switch {
@@ -664,12 +741,23 @@ func c20HasDeadPrefix(cfgKey string, ops []string) bool {
 func c20CustomOK(ops []string) bool {
 	for _, o := range ops {
 		switch o {
-		case "C", "W", "B", "H", "Tn", "Pn":
+		case "C", "W", "B", "H", "Tn", "Pn", "Er", "En", "Ea":
 		default:
 			return false
 		}
 	}
 	return true
+}
+
+// builds, edits of other ClientHello fields and the handshake: what may follow an injection
+var c20EditAlphabet = []string{"B", "Er", "Ea", "H"}
+var c20EditAlphabetFull = []string{"B", "W", "Er", "En", "Ea", "H"}
+var c20EditPrefixes = [][]string{{}, {"Pi"}, {"Ti"}}
+
+// c20EditCfgs: configurations (cache in Config) where a session is injected or loaded from the cache
+func c20EditCfgs() []c20Cfg {
+	return []c20Cfg{{"psk", 1, "s13", 13}, {"psk", 1, "e", 13}, {"psk", 1, "s12", 12}, {"t13", 1, "s12", 12},
+		{"t12", 1, "s12", 12}, {"golang", 1, "s13", 13}, {"cpsk", 1, "s13", 13}}
 }
 
 var c20CoreAlphabet = []string{"C", "W", "B", "H", "Ti", "Pi", "Tu", "Pu"}
@@ -727,6 +815,8 @@ func c20AllCfgs() []c20Cfg {
 // exhaustive enumeration state (the generator is called with increasing i by one process)
 type c20Enum struct {
 	cfgs   []c20Cfg
+	prefix [][]string // if set: every sequence is tried after each of these prefixes
+	pi     int
 	alpha  []string
 	maxLen int
 	length int
@@ -755,6 +845,11 @@ func (e *c20Enum) next() (c20Cfg, []string, bool) {
 			}
 			if p < 0 {
 				e.idx = nil
+				if e.pi+1 < len(e.prefix) {
+					e.pi++
+					continue
+				}
+				e.pi = 0
 				e.ci++
 				if e.ci >= len(e.cfgs) {
 					e.ci = 0
@@ -766,9 +861,12 @@ func (e *c20Enum) next() (c20Cfg, []string, bool) {
 				continue
 			}
 		}
-		ops := make([]string, e.length)
-		for i, d := range e.idx {
-			ops[i] = e.alpha[d]
+		ops := make([]string, 0, e.length+2)
+		if len(e.prefix) > 0 {
+			ops = append(ops, e.prefix[e.pi]...)
+		}
+		for _, d := range e.idx {
+			ops = append(ops, e.alpha[d])
 		}
 		cfg := e.cfgs[e.ci]
 		if cfg.kind == "cpsk" && !c20CustomOK(ops) {
@@ -794,11 +892,13 @@ func c20Gen(r *Rng, i int, tier string) string {
 				{cfgs: c20AllCfgs(), alpha: c20FullAlphabet, maxLen: 3},
 				{cfgs: c20CoreCfgs(), alpha: c20CoreAlphabet, maxLen: 5},
 				{cfgs: []c20Cfg{{"psk", 1, "s13", 13}, {"t13", 0, "s12", 12}}, alpha: c20CoreAlphabet, maxLen: 6},
+				{cfgs: c20EditCfgs(), prefix: c20EditPrefixes, alpha: c20EditAlphabetFull, maxLen: 5},
 			}
 		} else {
 			c20Enums = []*c20Enum{
 				{cfgs: c20AllCfgs(), alpha: c20FullAlphabet, maxLen: 2},
 				{cfgs: c20CoreCfgs(), alpha: c20CoreAlphabet, maxLen: 3},
+				{cfgs: c20EditCfgs(), prefix: c20EditPrefixes, alpha: c20EditAlphabet, maxLen: 4},
 			}
 		}
 	}
@@ -817,7 +917,7 @@ func c20Gen(r *Rng, i int, tier string) string {
 	ops := make([]string, 0, n)
 	for len(ops) < n {
 		if r.Intn(3) == 0 {
-			ops = append(ops, Pick(r, []string{"C", "W", "B", "H"}))
+			ops = append(ops, Pick(r, []string{"C", "W", "B", "H", "B", "H", "Er", "Ea", "En"}))
 		} else {
 			ops = append(ops, Pick(r, c20FullAlphabet))
 		}
@@ -825,7 +925,7 @@ func c20Gen(r *Rng, i int, tier string) string {
 	if cfg.kind == "cpsk" {
 		for i, o := range ops {
 			if !c20CustomOK([]string{o}) {
-				ops[i] = Pick(r, []string{"C", "W", "B", "H", "Tn", "Pn"})
+				ops[i] = Pick(r, []string{"C", "W", "B", "H", "Tn", "Pn", "Er", "En", "Ea"})
 			}
 		}
 	}
